@@ -13,7 +13,8 @@ var c17errPred = errors.New("c17: predicate failed")
 
 // c17packet builds a well-formed packet of the chosen shape with all other bytes symbolic.
 // shape: 0 payload only (184 bytes), 1 adaptation field only (no payload),
-// 2 AF length 0 (183 bytes), 3 AF length 7 (176 bytes), 4 AF length 182 (1 byte)
+// 2 AF length 0 (183 bytes), 3 AF length 7 (176 bytes), 4 AF length 182 (1 byte),
+// 5 payload flag set but the adaptation field fills the packet (payload present and empty)
 func c17packet(tag string, shape int, pusi bool) (Packet, int) {
 	var p Packet
 	vrt.Bytes(tag, p[:])
@@ -44,6 +45,10 @@ func c17packet(tag string, shape int, pusi bool) (Packet, int) {
 		p[3] |= 0x30
 		p[4] = 182
 		pay = 1
+	case 5:
+		p[3] |= 0x30
+		p[4] = 183
+		pay = 0
 	}
 	return p, pay
 }
@@ -96,8 +101,8 @@ func c17run(k int, predKind int) {
 	acc := NewAccumulator(pred)
 	m := &c17model{}
 	for step := 0; step < k; step++ {
-		op := vrt.Choose("op", 0, 10) // 0..9 = WritePacket(shape op/2, pusi op%2), 10 = Reset
-		if op == 10 {
+		op := vrt.Choose("op", 0, 12) // 0..11 = WritePacket(shape op/2, pusi op%2), 12 = Reset
+		if op == 12 {
 			acc.Reset()
 			*m = c17model{}
 			c17check(acc, m, "after Reset")
